@@ -174,7 +174,11 @@ var newUClientConnection = func(
 	if len(uSpec.InitialPacketSpec.InitPacketNumberLengths) > 0 {
 		ackhandler.SetInitialPacketNumberLengths(
 			s.sentPacketHandler,
-			protocol.PacketNumber(uSpec.InitialPacketSpec.InitPacketNumber),
+			// [UQUIC] index the per-packet lengths relative to the packet number the flight really
+			// starts with: initialPN() falls back to 0 for an InitPacketNumber above 2^62-1, and the
+			// raw value (reinterpreted as int64) would then select entry 0, the last entry or entry
+			// i+1 for every packet instead of entry i.
+			uSpec.InitialPacketSpec.initialPN(),
 			uSpec.InitialPacketSpec.InitPacketNumberLengths,
 		)
 	} else if uSpec.InitialPacketSpec.InitPacketNumberLength != 0 {
